@@ -14,8 +14,9 @@
    ledger_sum RO T net (cols st) (occs st) x
       = sum over periods t and stations s with (session x connected to s in t) of
         rates[s][t] * V_s / 1000 * (T / 60). *)
-From Coq Require Import ZArith QArith Reals Lra List Bool.
-From ACN Require Import Base.Num Base.NumR Gen.Battery_R Model.Ledger Model.LedgerR Model.LedgerQ Proofs.Ledger.
+From Coq Require Import ZArith QArith Qcanon Qminmax Reals Lra List Bool.
+From ACN Require Import Base.Num Base.NumR Gen.Battery_Q Gen.Battery_R Model.EVSE Model.Ledger Model.LedgerR Model.LedgerQ
+                        Model.LedgerQc Proofs.LedgerField Proofs.Ledger Proofs.LedgerQc.
 Import ListNotations.
 Open Scope R_scope.
 
@@ -135,11 +136,68 @@ Example C02_example :
              /\ Rsum (map e_energy (all_evs st)) = 832 / 1000.
 Proof. exact ledger_example. Qed.
 
+(* ------------------------------------------------------------------------------------------------ *)
+(* The same statements over CANONICAL RATIONALS (Qc): the model instance that the correspondence check  *)
+(* runs against the real Simulator on every run.  Every finite double is a rational, so these cover      *)
+(* every float input under exact arithmetic.  No axioms ("Closed under the global context").             *)
+(* The generic proof (Proofs/LedgerField.v) holds for any commutative ring with x / y = x * inv y.       *)
+(* ------------------------------------------------------------------------------------------------ *)
+Theorem C02_battery_consistent_rational :
+  (forall cap cur pw maxp pilot v t o,
+     Battery_Q.Battery_charge cap cur pw maxp pilot v t = OkS o ->
+     (Battery_Q.Battery_charge__current_charge o - cur == Battery_Q.Battery_charge_ret o * v / 1000 * (t / 60))%Q)
+  /\ (forall cap cur pw maxp nl tsoc pilot v t n n2 o,
+     Battery_Q.L2_charge_stepwise cap cur pw maxp nl tsoc pilot v t n n2 = OkS o ->
+     (Battery_Q.L2_charge_stepwise__current_charge o - cur == Battery_Q.L2_charge_stepwise_ret o * v / 1000 * (t / 60))%Q)
+  /\ (forall cap cur pw maxp nl tsoc pilot v t n o,
+     ~ (cap == 0)%Q ->
+     Battery_Q.L2_charge cap cur pw maxp nl tsoc pilot v t n = OkS o ->
+     (Battery_Q.L2_charge__current_charge o - cur == Battery_Q.L2_charge_ret o * v / 1000 * (t / 60))%Q).
+Proof.
+  exact (conj battery_consistent_ideal_Q (conj battery_consistent_stepwise_Q battery_consistent_continuous_Q)).
+Qed.
+Print Assumptions C02_battery_consistent_rational.
+
+Theorem C02_kernels_lawful_rational : kern_laws_F Qc QcO KQc batt_ok_Qc.
+Proof. exact KQc_laws. Qed.
+Print Assumptions C02_kernels_lawful_rational.
+
+Theorem C02_ledger_rational : forall (T : Qc) net ops st,
+  NoDup (plugged_sids ops) -> Forall batt_ok_Qc (plugged_batts ops) ->
+  simulate QcO KQc T net ops = Some st ->
+  forall e, In e (all_evs st) ->
+    e_energy e = ledger_sum QcO T net (cols st) (occs st) (e_sid e)
+    /\ exists c0, init_charge KQc ops (e_sid e) = Some c0 /\ e_energy e = (b_cur (e_batt e) - c0)%Qc.
+Proof. exact ledger_Qc. Qed.
+Print Assumptions C02_ledger_rational.
+
+Theorem C02_vacant_zero_rational : forall (T : Qc) net ops st,
+  simulate QcO KQc T net ops = Some st ->
+  forall t col occ,
+    nth_error (rates_by_period st) t = Some col -> nth_error (occupancy_by_period st) t = Some occ ->
+    length col = length net /\ length occ = length net /\
+    forall i, nth_error occ i = Some None -> nth_error col i = Some (Q2Qc 0).
+Proof. exact vacant_zero_Qc. Qed.
+Print Assumptions C02_vacant_zero_rational.
+
+Theorem C02_peak_rational : forall (T : Qc) net ops st,
+  simulate QcO KQc T net ops = Some st ->
+  peak st = fold_right (fun col acc => Q2Qc (Qmax (this acc) (this (fsum QcO col)))) (Q2Qc 0) (cols st).
+Proof. exact peak_Qc. Qed.
+Print Assumptions C02_peak_rational.
+
+Theorem C02_total_rational : forall (T : Qc) net ops st,
+  Forall batt_ok_Qc (plugged_batts ops) ->
+  simulate QcO KQc T net ops = Some st ->
+  fsum QcO (map e_energy (all_evs st)) = fsum QcO (map (column_energy QcO T net) (cols st)).
+Proof. exact total_Qc. Qed.
+Print Assumptions C02_total_rational.
+
 (* the executable twin (what the correspondence check runs) on a run with all three battery classes,
    two voltages, back-to-back reuse of station 0 and a pilot addressed to a vacant station:
    the ledger equalities hold EXACTLY (rational arithmetic, no tolerance) and energy is delivered *)
 Example C02_exec_example :
-  ledger_exact_Q 5%Q [mk_stn 0%Z 208%Q (fun _ => true); mk_stn 1%Z 240%Q (fun _ => true)]
+  ledger_exact_Qc 5%Q [(0%Z, 208%Q, Continuous 0 80); (1%Z, 240%Q, Continuous 0 80)]
     [Plugin 0%Z 1%Z (mk_batt BL2cont 50 45 0 (66 # 10) 0 (8 # 10))%Q;
      Plugin 1%Z 2%Z (mk_batt BL2step 24 12 0 (72 # 10) (1 # 10) (1 # 2))%Q;
      Step [16; 32]%Q [(0, 0); (3 # 10, 3 # 10)]%Q; Step [16; 0]%Q [];
